@@ -395,7 +395,7 @@ pub fn candidates(w: &mut World, rng: &mut Rng, g: &Gen, step: usize) -> Vec<Str
     if n_calls < 7 && (step < 25 || rng.coin(1, 4)) {
         let weight = if held(w).is_empty() { 4 } else { 2 };
         for _ in 0..weight {
-            let hamt = *rng.pick(&[nd, nd, nd / 2, nd - nd / 2, nd / 2, nd - nd / 2, nd / 3, 1000, nd + 5000, nd - 1, 2 * nd]);
+            let hamt = if rng.coin(1, 40) { *rng.pick(&[u64::MAX, u64::MAX / 2 + 1, u64::MAX - nd]) } else { *rng.pick(&[nd, nd, nd / 2, nd - nd / 2, nd / 2, nd - nd / 2, nd / 3, 1000, nd + 5000, nd - 1, 2 * nd]) };
             let total = match rng.below(16) { 0 => None, 1 => Some(nd - 1), 2 => Some(amt), _ => Some(nd.max(hamt)) };
             let (expiry, rel) = match rng.below(24) { 0 => (w.height + 100, 100i64), 1 => (w.height + 144, 144), 2 => (w.height + 143, 143), 3 => (w.height + 70_000, 70_000), 4 => (w.height + 200, -5), 5 => (w.height + 150, 150), _ => (w.height + 300 + rng.below(300) as u32, 300) };
             let b11 = if rng.coin(1, 25) { 1 } else { 0 };
